@@ -20,6 +20,7 @@ pub mod fax {
     pub uninterp spec fn i2f(i: i64) -> f32;
     pub uninterp spec fn f2i(x: f32) -> i64;
     pub uninterp spec fn fneg_spec(x: f32) -> f32;
+    pub uninterp spec fn fabs_spec(x: f32) -> f32;
     pub broadcast group a1 {
         ax_add_req, ax_sub_req, ax_mul_req, ax_div_req, ax_add_obeys, ax_sub_obeys, ax_mul_obeys, ax_div_obeys,
         ax_eq_obeys, ax_ord_obeys,
@@ -27,7 +28,7 @@ pub mod fax {
 }
 // (each unit writes its single module-level `broadcast use` naming fax::a1 plus its own literal-fact groups)
 
-pub use fax::{i2f, f2i, fneg_spec};
+pub use fax::{i2f, f2i, fneg_spec, fabs_spec};
 #[verifier::external_body]
 pub fn i64_to_f32(i: i64) -> (r: f32) ensures r == i2f(i) { i as f32 }
 #[verifier::external_body]
@@ -38,3 +39,5 @@ pub open spec fn flt(a: f32, b: f32) -> bool { a.partial_cmp_spec(&b) == Some(Or
 pub open spec fn fle(a: f32, b: f32) -> bool { a.partial_cmp_spec(&b) == Some(Ordering::Less) || a.partial_cmp_spec(&b) == Some(Ordering::Equal) }
 pub open spec fn fgt(a: f32, b: f32) -> bool { a.partial_cmp_spec(&b) == Some(Ordering::Greater) }
 pub open spec fn fge(a: f32, b: f32) -> bool { a.partial_cmp_spec(&b) == Some(Ordering::Greater) || a.partial_cmp_spec(&b) == Some(Ordering::Equal) }
+#[verifier::external_body]
+pub fn fabs(x: f32) -> (r: f32) ensures r == fabs_spec(x) { x.abs() }
